@@ -9,6 +9,7 @@ import json
 import os
 import random
 import re
+import threading
 import time
 
 import lib
@@ -19,7 +20,8 @@ ACTIONS = ["Define", "EndDefine", "AddDep", "EndAdds", "Ask", "GrowStart", "Grow
            "Peel", "PeelEnd", "Bfs", "BfsEnd"]
 ALL_LABELS = ["none", "req", "g1", "g2", "opt", "req+opt", "g1+g2", "g1+opt"]
 FIVE = ["none", "req", "g1", "g2", "opt"]
-COVERAGE_FROM = ("labels3", "kinds3", "specs4", "raw3", "help3", "types3")
+BIG = ("labels3", "edges4", "edges4any", "kinds3", "kinds4", "specs6p", "raw4", "sim7", "sim8")     # two TLC workers
+COVERAGE_FROM = ("kinds3", "specs4", "raw3", "help3", "types3")
 ALL_ASK = ["basic", "sub", "topo", "walk", "help", "specs"]
 
 
@@ -36,9 +38,10 @@ FAMILIES = {
         # every way of naming a dependency (incl. twice), one add_dependency, every key set
         ("labels3", fam(N=3, LabelSet=ALL_LABELS, MaxAdds=1)),
         # every required / at-least-one shape on four components, every key set
-        ("edges4", fam(N=4, MinN=4, LabelSet=("none", "req", "g1"))),
+        ("edges4", fam(N=4, MinN=4, LabelSet=("none", "req", "g1"), AskSet=("basic", "sub", "walk"))),
         # components, datasources, registry points with priorities; implementations registered afterwards
-        ("kinds3", fam(N=3, KindSet=("comp", "ds", "point"), PrioSet=(0, 1, 2), MaxAdds=2, AskSet=("basic", "sub"))),
+        ("kinds3", fam(N=3, KindSet=("comp", "ds", "point"), PrioSet=(0, 1, 2), MaxAdds=2,
+                       AskSet=("basic", "sub", "walk"))),
         # two component types (one a subclass of the other) and two groups
         ("types3", fam(N=3, TypSet=("base", "sub"), GrpSet=(1, 2), AskSet=("basic",))),
         ("help3", fam(N=3, LabelSet=FIVE, AskSet=("help",))),
@@ -84,7 +87,7 @@ REFUTE = collections.OrderedDict([
 ])
 THOROUGH_ONLY = ()
 # replayed cases per family and question (the model runs stay exhaustive; the replay takes a VERIF_SEED sample)
-CAP = {"quick": {"basic": 450, "sub": 900, "topo": 900, "walk": 500, "help": 900, "specs": 8000, "none": 729},
+CAP = {"quick": {"basic": 250, "sub": 900, "topo": 900, "walk": 500, "help": 900, "specs": 8000, "none": 729},
        "thorough": {"basic": 10 ** 7, "sub": 60000, "topo": 60000, "walk": 30000, "help": 20000, "specs": 60000,
                     "none": 10 ** 7}}
 NVAR = {"quick": 1, "thorough": 1}
@@ -169,7 +172,8 @@ def model_runs(tier):
         with open(p, "w") as fh:
             fh.write(cfg_text(f, INVARIANTS, True))
         # per-action counts (vacuity) from the small runs; they take every action between them
-        kw = dict(workers=2 if lib.NCPU >= 4 else 1, raw_cases=True, coverage=name in COVERAGE_FROM)
+        big = name in BIG and lib.NCPU >= 4
+        kw = dict(workers=2 if big else 1, raw_cases=True, coverage=name in COVERAGE_FROM, light=not big)
         if f["sim"]:
             kw.update(simulate=max(1, f["sim"] // kw["workers"]), depth=f["depth"], tlc_seed=lib.seed() + 1)
         jobs.append((name, p, kw))
@@ -182,15 +186,30 @@ def model_runs(tier):
     order = {"edges4": 0, "sim8": 0, "kinds4": 0, "labels3": 1, "sim7": 1, "edges4any": 1, "raw4": 1, "kinds3": 2}
     jobs.sort(key=lambda j: order.get(j[0], 3))
 
+    # at most min(4, VERIF_CPUS) TLC worker threads at a time
+    budget = max(1, min(4, lib.NCPU))
+    cond = threading.Condition()
+    free = [budget]
+
     def one(job):
         name, cfgp, kw = job
-        r = lib.run_tlc("DrGraphMC", cfgp, tag="x05-" + name, timeout=3000, **kw)
+        n = min(kw["workers"], budget)
+        with cond:                      # all of a run's worker slots are taken at once
+            while free[0] < n:
+                cond.wait()
+            free[0] -= n
+        try:
+            r = lib.run_tlc("DrGraphMC", cfgp, tag="x05-" + name, timeout=3000, **kw)
+        finally:
+            with cond:
+                free[0] += n
+                cond.notify_all()
         if not name.startswith("refute-"):
             lib.require_ok(r, "DrGraph model " + name)
         return name, r
 
     res = collections.OrderedDict()
-    with concurrent.futures.ThreadPoolExecutor(max_workers=2 if lib.NCPU >= 4 else 1) as ex:
+    with concurrent.futures.ThreadPoolExecutor(max_workers=budget) as ex:
         for name, r in ex.map(one, jobs):
             res[name] = r
     refuted = {}
@@ -242,7 +261,7 @@ def candidates(trace):
             cands.append((i, "rps:unknown-object"))
             if e["rps"]:
                 cands.append((i, "rps:drop-point"))
-        elif k == "detc" and e["g"]:
+        elif k == "detc" and e["g"] and e["how"] != "type":       # (a type's graph is only bounded)
             cands.append((i, "detc:drop-node"))
         elif k == "subg" and e["parts"]:
             cands.append((i, "subg:drop-key"))
